@@ -235,7 +235,9 @@ func (c *c08) RunDesc(desc json.RawMessage) engine.Result {
 		}
 		outcome, v := c.recover(s, cs, h, ref, a.Chain, descr)
 		res.Count("outcome:"+outcome, 1)
-		res.States = append(res.States, dg)
+		// (the byte-level digest of a snapshot is not reproducible across runs - LevelDB file contents carry
+		// run-specific bytes - so the reported state is the crash point identity; the digest only de-duplicates)
+		res.States = append(res.States, shortHash(fmt.Sprintf("%s/%v/%d/%s", cs.Variant, cs.Devs, cs.Block, s.label)))
 		if v != nil {
 			one := cs
 			one.Only = s.label
